@@ -31,7 +31,10 @@ import (
 //	R-slot-owner        (client) a stream goroutine touches the shared stream slot only while it still owns it
 func init() { Registry["C11"] = checkC11 }
 
-func isCancelFunc(t types.Type) bool { return ir.TypeStr(t) == "context.CancelFunc" }
+func isCancelFunc(t types.Type) bool {
+	s := ir.TypeStr(t)
+	return s == "context.CancelFunc" || s == "context.CancelCauseFunc"
+}
 
 func checkC11(c *Ctx) {
 	c.R.Explanation = "Static typestate/lockset check of the listening-stream table (discovered: map field whose values point to a record with a context.CancelFunc): " +
